@@ -16,6 +16,7 @@ inductive PyExc where
   | ValueError
   | TypeError
   | OverflowError
+  | IndexError
   | SubstitutionSyntaxError
   | SubstitutionReplacementError (source : Str) (name : Option Str)
   | Other (cls : Str)      -- any other class, by name (never raised by translated code; target of the models' `other`)
@@ -78,6 +79,36 @@ def reMatchAt (r : Rx.RE) (s : Str) (pos : Int) : Option Match :=
 
 /-- `rx.match(s)` -/
 def reMatch (r : Rx.RE) (s : Str) : Option Match := reMatchAt r s 0
+
+/-- a Python number as far as the translated code needs it: an `int`, or a `float` kept SYMBOLIC as the literal it was
+    converted from (`float(lit)`; no float arithmetic in Lean) -/
+inductive Num where
+  | int (i : Int)
+  | float (lit : Str)
+deriving Repr, DecidableEq
+
+/-- `float(s)` for a `str`: which texts are accepted is the parameter `accepts` (the acceptance grammar of the models,
+    `DT.floatOk`); the value stays symbolic -/
+def float (accepts : Str → Bool) (s : Str) : Except PyExc Num :=
+  if accepts s then .ok (.float s) else .error .ValueError
+
+/-- `s[i]` for an integer `i` (negative counts from the end): a one-character string, or `IndexError` -/
+def index (s : Str) (i : Int) : Except PyExc Str :=
+  let k : Int := if i < 0 then (s.length : Int) + i else i
+  if k < 0 then .error .IndexError
+  else match s[k.toNat]? with
+    | some c => .ok [c]
+    | none => .error .IndexError
+
+/-- `datetime.timedelta(weeks=…, days=…, hours=…, minutes=…, seconds=…)`, kept symbolic as its arguments (whether the
+    constructor accepts them — range, NaN — is a parameter of the translated `timedelta`) -/
+structure Timedelta where
+  weeks : Num
+  days : Num
+  hours : Num
+  minutes : Num
+  seconds : Num
+deriving Repr, DecidableEq
 
 /-- `functools.reduce(f, xs)` without initial value, `f` possibly raising; `TypeError` on an empty sequence -/
 def reduceFrom {α} (f : α → α → Except PyExc α) : α → List α → Except PyExc α
